@@ -117,11 +117,13 @@ package ristretto
 //@ spec min64(a, b int64) int64 = ite(b < a, b, a)
 
 //@ func (p *tinyLFU) Estimate(key uint64) int64
+//@   holds defaultPolicy
 //@   requires wfTiny(p)
 //@   ensures [C18] #value result == tinyEst(p, key)
 //@   ensures [C18] #range 0 <= result && result <= 16
 
 //@ func (p *tinyLFU) Increment(key uint64)
+//@   holds defaultPolicy
 //@   uses cidxInRange, GcPosInRange
 //@   reveal GcHasV
 //@   requires wfTiny(p)
@@ -133,12 +135,14 @@ package ristretto
 //@   ensures [C18] #reset old(p.incrs)+1 >= p.resetAt ==> p.incrs == 0 && forall x uint64 :: x <= z.GcBloomSize(p.door) ==> !z.GcBit(p.door, x)
 
 //@ func (p *tinyLFU) clear()
+//@   holds defaultPolicy
 //@   requires wfTiny(p)
 //@   modifies p.incrs, z.GcBloomBits(p.door)[*], p.freq.rows[0][*], p.freq.rows[1][*], p.freq.rows[2][*], p.freq.rows[3][*]
 //@   ensures [C18] #wf wfTiny(p) && p.incrs == 0
 //@   ensures [C18] #zero (forall y uint64 :: est(p.freq, y) == 0) && forall x uint64 :: x <= z.GcBloomSize(p.door) ==> !z.GcBit(p.door, x)
 
 //@ func (p *tinyLFU) Push(keys []uint64)
+//@   holds defaultPolicy
 //@   requires wfTiny(p)
 //@   modifies p.incrs, z.GcBloomBits(p.door)[*], p.door.ElemNum, p.freq.rows[0][*], p.freq.rows[1][*], p.freq.rows[2][*], p.freq.rows[3][*]
 //@   loop 1 invariant wfTiny(p)
@@ -184,6 +188,7 @@ package ristretto
 //@   assumes [C03] result >= old(gcMaxCostLast) && gcMaxCostLast == result
 
 //@ func (p *sampledLFU) add(key uint64, cost int64)
+//@   holds defaultPolicy
 //@   requires wfLFU(p) && !gcHas(p.keyCosts, key)
 //@   modifies p.used, p.keyCosts[*]
 //@   ensures [C03] #wf wfLFU(p) && p.used == old(p.used)+cost
@@ -191,6 +196,7 @@ package ristretto
 //@   ensures [C03,C13] #frame forall k uint64 :: k != key ==> gcHas(p.keyCosts, k) == old(gcHas(p.keyCosts, k)) && p.keyCosts[k] == old(p.keyCosts[k])
 
 //@ func (p *sampledLFU) del(key uint64)
+//@   holds defaultPolicy
 //@   requires wfLFU(p)
 //@   modifies p.used, p.keyCosts[*], gcMtot[*]
 //@   ensures [C03] #wf wfLFU(p)
@@ -201,6 +207,7 @@ package ristretto
 //@   ensures [C17] #others forall q *Metrics, u metricType :: (q != p.metrics || (u != costEvict && u != keyEvict) || !old(gcHas(p.keyCosts, key))) ==> mtot(q, u) == old(mtot(q, u))
 
 //@ func (p *sampledLFU) updateIfHas(key uint64, cost int64) bool
+//@   holds defaultPolicy
 //@   requires wfLFU(p)
 //@   modifies p.used, p.keyCosts[*], gcMtot[*]
 //@   ensures [C03] #wf wfLFU(p)
@@ -212,6 +219,7 @@ package ristretto
 //@   ensures [C17] #others forall q *Metrics, u metricType :: (q != p.metrics || (u != costAdd && u != keyUpdate) || !result) ==> mtot(q, u) == old(mtot(q, u))
 
 //@ func (p *sampledLFU) clear()
+//@   holds defaultPolicy
 //@   requires p != nil && (p.metrics == nil || wfMetrics(p.metrics))
 //@   modifies p.used, p.keyCosts
 //@   ensures [C03,C13,C15] #empty wfLFU(p) && p.used == 0 && gcCard(p.keyCosts) == 0 && forall k uint64 :: !gcHas(p.keyCosts, k)
@@ -222,6 +230,7 @@ package ristretto
 //@ spec sampleDistinct(s []*policyPair) bool = forall i, j int :: 0 <= i && i < j && j < len(s) ==> s[i].key != s[j].key
 
 //@ func (p *sampledLFU) fillSample(in []*policyPair) []*policyPair
+//@   holds defaultPolicy
 //@   requires wfLFU(p) && sampleOK(p, in) && len(in) <= 5
 //@   modifies in[*]
 //@   loop 1 invariant len(in0) <= len(in) && len(in) < 5 && (gcSameArray(in, in0) || gcFresh(in))
